@@ -78,7 +78,19 @@ def handleEvalNs (j : Json) : R String := do
   let ans := (← names j "names").map fun n => (ns.get n).getD "undefined"
   pure (joinWith "," ans ++ "|" ++ (if w'.read 0 == helpers then "pkg-unchanged" else "pkg-changed"))
 
+/-- kind `evalname`: `{helpers, vars, locals|null, name, suggestions: [...]}` → `bound:<layer>` | `AttributeError:<name>`. -/
+def handleEvalName (j : Json) : R String := do
+  let helpers := tagged "helper" (← names j "helpers")
+  let vars := tagged "var" (← names j "vars")
+  let locals_ ← match optObj j "locals" with
+    | some _ => do pure (some (tagged "local" (← names j "locals")))
+    | none => pure none
+  let (w', l) := assemble (⟨[helpers]⟩ : NsWorld String) none vars locals_
+  match evalName (w'.read l) (← names j "suggestions") (← str j "name") with
+  | .bound v => pure ("bound:" ++ v)
+  | .attributeError n => pure ("AttributeError:" ++ n)
+
 def handlers : List (String × (Lean.Json → Except String String)) :=
-  [("evalidx", handleEvalIdx), ("evalns", handleEvalNs)]
+  [("evalidx", handleEvalIdx), ("evalns", handleEvalNs), ("evalname", handleEvalName)]
 
 end Drv.EvalIndex
